@@ -256,7 +256,7 @@ func c14EvalBlock(w *mc.W, cas c14Blk) {
 				}
 			}
 		} else {
-			blk := wire.NewMsgBlock(wire.NewBlockHeader(1, &chainhash.Hash{9}, &chainhash.Hash{8}, 7, 6))
+			blk := wire.NewMsgBlock(fixedHeader(1, &chainhash.Hash{9}, &chainhash.Hash{8}, 7, 6))
 			for _, tx := range txs {
 				blk.AddTransaction(tx)
 			}
